@@ -425,6 +425,84 @@ example (tag : WhVerif.C04.Tag) : ∀ r ∈ (exStage tag).records, ∀ c, c < (e
     WhVerif.C04.clookup r.calls ((exStage tag).names.getD ind "") = some call →
     trustedGeno (exStage tag).I ind c = some g → WhVerif.C04.gcode call.gt = genoAlleles g := exStage_link tag
 
+/-! ### several chromosomes in one `--ped` run (round 10, seed C05-i)
+
+`run_whatshap` drives reader → solver → writer once per chromosome; the writer's duplicate-position tracker `prev_pos` is a
+local of one `PhasedVcfWriter.write` call, so a run is the per-chromosome pipeline mapped over the chromosomes
+(`WhVerif.Props.C09.write_file_chromosome_local` is this statement for the writer alone; `carried_prev_pos_witness` shows
+what a carried `prev_pos` does to chrA 100,200,300 / chrB 300,400,500). -/
+
+/-- a `--ped` run over the chromosomes `Ss` (in file order): `none` if the pipeline of one of them fails -/
+def pipelineRun (Ss : List Stage) : Option (List (List WhVerif.C09.Row)) := Ss.mapM pipeline
+
+/-- **pipeline_run_chromosome_local**: what a run over `pre ++ S :: post` puts out for chromosome `S` is what the pipeline puts
+out for `S` alone (the pedigree-level form of `C09.write_file_chromosome_local`) -/
+theorem pipeline_run_chromosome_local (pre post : List Stage) (S : Stage) :
+    ∀ out, pipelineRun (pre ++ S :: post) = some out →
+      ∃ rows, pipeline S = some rows ∧ out[pre.length]? = some rows := by
+  induction pre with
+  | nil =>
+    intro out h
+    simp only [pipelineRun, List.nil_append, List.mapM_cons] at h
+    cases hp : pipeline S with
+    | none => simp [hp] at h
+    | some rows =>
+      cases hq : post.mapM pipeline with
+      | none => simp [hp, hq] at h
+      | some rest =>
+        simp [hp, hq] at h
+        exact ⟨rows, rfl, by subst h; simp⟩
+  | cons P pre ih =>
+    intro out h
+    simp only [pipelineRun, List.cons_append, List.mapM_cons] at h
+    cases hp : pipeline P with
+    | none => simp [hp] at h
+    | some r0 =>
+      cases hq : (pre ++ S :: post).mapM pipeline with
+      | none => simp [hp, hq] at h
+      | some rest =>
+        simp [hp, hq] at h
+        obtain ⟨rows, h1, h2⟩ := ih rest hq
+        exact ⟨rows, h1, by subst h; simpa using h2⟩
+
+/-- **pedigree_vcf_phased_every_chromosome**: in a run over several chromosomes the conclusion of `pedigree_vcf_phased`
+holds on EACH chromosome `S`, whatever the chromosomes `pre` written before it and `post` after it are — no hypothesis
+relates their positions to those of `S` (the last phased POS of `pre` may be the first phased POS of `S`): a column
+with a definite `0|1` / `1|0` super-read entry whose position has a component is phased, with exactly that pair, in the
+rows of that chromosome in the run's output -/
+theorem pedigree_vcf_phased_every_chromosome (pre post : List Stage) (S : Stage) (hwf : WF S.I) (hin : PedPipelineOk S)
+    (β : List Bool) (τ : List Nat) (hw : witness S.I = some (β, τ)) (comps : List (Nat × Nat))
+    (hcomps : components S = .ok comps) (ind : Nat) (hind : ind < S.I.nind) (c : Nat) (hc : c < S.I.ncols)
+    (hent : colEntry S.I β τ c ind = (0, 1) ∨ colEntry S.I β τ c ind = (1, 0))
+    (mc : Nat) (hmc : WhVerif.C03.compOf comps (posAt S.pos c) = some mc)
+    (out : List (List WhVerif.C09.Row)) (hrun : pipelineRun (pre ++ S :: post) = some out) :
+    ∃ rows, out[pre.length]? = some rows ∧ pipeline S = some rows ∧
+      ∀ row ∈ rows, row.pos = posAt S.pos c → ∀ j, S.header[j]? = some (S.names.getD ind "") →
+        samplePhase row j =
+          some ⟨some ((mc : Int) + 1), [some (colEntry S.I β τ c ind).1, some (colEntry S.I β τ c ind).2]⟩ := by
+  obtain ⟨rows, h1, h2⟩ := pipeline_run_chromosome_local pre post S out hrun
+  obtain ⟨rows', h1', h3⟩ := pedigree_vcf_phased S hwf hin β τ hw comps hcomps ind hind c hc hent mc hmc
+  rw [h1] at h1'
+  cases h1'
+  exact ⟨rows, h2, h1, h3⟩
+
+/-- non-vacuity: a run over two chromosomes (the trio `exStage` twice): the run succeeds and both chromosomes carry the
+phase of the single-chromosome pipeline.  (An instance with chrA 1000,2000,3000 / chrB 3000,4000,5000 at the pedigree
+level is the corpus case `14_cli_two_chromosomes_last_phased_pos_equals_first`; the Lean instance with coinciding
+coordinates is C09's `exChainGroups`.) -/
+example (tag : WhVerif.C04.Tag) :
+    (pipelineRun [exStage tag, exStage tag]).map (·.map (·.map rowPhases)) =
+      some (List.replicate 2
+        [(100, [some ⟨some 101, [some 1, some 0]⟩, some ⟨some 101, [some 0, some 1]⟩, none, none]),
+         (200, [some ⟨some 101, [some 1, some 0]⟩, some ⟨some 101, [some 0, some 1]⟩,
+                some ⟨some 101, [some 1, some 0]⟩, none])]) := by
+  have h := exPipeline tag
+  cases hp : pipeline (exStage tag) with
+  | none => simp [hp] at h
+  | some rows =>
+    simp [hp] at h
+    simp [pipelineRun, List.mapM_cons, hp, h, List.replicate]
+
 end WhVerif.Props.C05
 
 /-! ## genotype likelihoods (`--distrust-genotypes`) and arbitrary recombination costs
